@@ -5,10 +5,15 @@ from vlib import sh
 
 PROPS = ["C05/Props.v"]
 META = dict(
-    text="Rocq theorems: (i) for EVERY batch partition of the input and EVERY arrival permutation of the transformed batches at the order-restoring writer (i.e. every batch size, worker count and schedule) the record-wise pipeline outputs flat_map f of the input in order (built on the resequencer theorem); (ii) on the ownership model of the buffer pool, in every interleaving respecting the ownership discipline an owner's buffer always holds its own last write. Tie to the code on every run: the ten commands are built from the working tree with the verif hook (recycled buffers poisoned) and run over a --max-cpu x --batch-size x GOMAXPROCS x repetition grid with byte-wise comparison; real pool get/recycle event traces are replayed through the model's validator by vm_compute.",
-    note="Partial by nature: purity of the real per-record functions, sync.Pool and the Go scheduler are not modelled — covered by the grid (a sample of schedules), the poison, trace validation and (thorough tier) race-detector builds. Per-record functions of obipairing/obimultiplex/obipcr are modelled under C08/C12/C11; here only determinism is claimed for them.")
-TRUSTED = ["Go runtime (scheduler, sync.Pool), the OS; the verif hook pkg/obiseq/pool_verif.go (poison + event trace)"]
+    text="Rocq theorems: (i) for EVERY batch partition of the input and EVERY arrival permutation of the transformed batches at the order-restoring writer (every batch size, worker count and schedule) the record-wise pipeline outputs flat_map f of the input in order (built on the resequencer theorem), instantiated with the per-record functions of obiconvert, obicomplement (the two in-place loops of ReverseComplement transcribed and PROVED equal to reverse-complement / reverse for every length), obigrep -l/-L/-c/-C/-v, obiannotate --length and obicsv --ids --count -s -k (rows) written over an abstract record (id, sequence, qualities, annotation map); (ii) folding commands (obicount, the count section of obisummary, per-worker partial results merged as in obisummary): in any commutative monoid the result is the sequential fold whatever the partition and the arrival order, and obicount's three numbers are what they should be; (iii) on the ownership model of the buffer pool, in every interleaving respecting the ownership discipline an owner's buffer holds its own last write. Tie to the code on every run: the REAL commands' output records are parsed and compared, by vm_compute, with flat_map (cmd_f c) / the fold of the input records; the ten commands built with the verif hook (recycled buffers poisoned) run over a --max-cpu x --batch-size x GOMAXPROCS x repetition grid with byte-wise comparison; the real library pipelines (reader -> Rebatch -> worker pool -> writer; pairing included) are run in-process under hundreds of configurations with injected random yields; WHOLE get/recycle traces of both pools of every command line are replayed through the model's validator by vm_compute; fresh-process trials of the first concurrent use of the JSON machinery.",
+    note="Partial by nature: purity of the real per-record functions, sync.Pool and the Go scheduler are not modelled — covered by the correspondence of output records, the grid and the in-process exploration (samples of schedules), the poison, trace validation and, in the thorough tier, race-detector builds whose reports are a violation only when BOTH accesses lie in code holding record bytes (obiseq, obialign, obiapat, obikmer, obingslibrary) and match none of the benign patterns of the unchanged tree. The reader's normalisation (lower-casing, definition -> annotation) and title-line parsing are rendered in Python (C01/C02 own them); ReverseComplement's rewrite of a pairing_mismatches map and non-integer count attributes are outside the record model (cmd_pre rejects such inputs). Per-record functions of obipairing/obimultiplex/obipcr are modelled under C08/C12/C11; obisummary beyond its count section, obicsv with other options or with non string/integer values: here only determinism is claimed. The first-use crash of go-json is schedule dependent (about 1 trial in 2200): the thorough tier is the one that finds it again; obidistribute's [2]string decode (one goroutine per output file) is the same mechanism and is not covered.")
+TRUSTED = ["Go runtime (scheduler, sync.Pool), the OS; the verif hooks pkg/obiseq/pool_verif.go (poison + event trace, traced headers kept alive) and pkg/obiiter/verif2_c05.go (random yields at Next/Push/worker loop)",
+           "Python parsers of the commands' FASTQ/JSON-header and obicount output and of the generator's own records (reader normalisation: lower case, definition as annotation); renumbering of trace addresses by first appearance; packing of bytes / events into primitive 63-bit integers decoded by C05.Codec inside vm_compute (Coq primitive integers)",
+           "classification of race-detector reports by the file of the first obitools frame of each access (thorough tier)"]
 
+# quick tier: the pool traces of one command line per command (thorough: every command line, three configurations)
+QUICK_TRACED = ("obiconvert", "obiconvert-fasta2fastq", "obigrep", "obiannotate", "obicomplement", "obipairing", "obimultiplex-whole-noerr", "obipcr",
+                "obicount", "obisummary", "obicsv")
 CMDS = ["obiconvert", "obigrep", "obiannotate", "obicomplement", "obipairing", "obimultiplex", "obipcr", "obicount", "obisummary", "obicsv"]
 COMP = {"a": "t", "c": "g", "g": "c", "t": "a", "n": "n"}
 
@@ -111,23 +116,113 @@ def run_cmd(bindir, argv, maxcpu, batch, gomax, trace=None, timeout=120):
     if trace:
         env["VERIF_POOL_TRACE"] = trace
     cmd = [os.path.join(bindir, argv[0]), "--max-cpu", str(maxcpu), "--batch-size", str(batch)] + argv[1:]
-    try:
-        p = subprocess.run(cmd, capture_output=True, timeout=timeout, env=env)
-        return p.returncode, p.stdout, p.stderr
-    except subprocess.TimeoutExpired:
-        return 124, b"", b"TIMEOUT"
+    for attempt in range(3):
+        try:
+            if trace and attempt and os.path.exists(trace):
+                os.remove(trace)
+            p = subprocess.run(cmd, capture_output=True, timeout=timeout, env=env)
+        except subprocess.TimeoutExpired:
+            return 124, b"", b"TIMEOUT"
+        if p.returncode not in (-15, -9):       # SIGTERM / SIGKILL come from outside (another job's cleanup): run again
+            break
+    return p.returncode, p.stdout, p.stderr
 
 
-def trace_terms(path, limit=6000):
-    """one trace per pool (byte slices: R/G, annotations: RA/GA) -> [(pool name, Gallina term, events)]"""
+def coq_eval_retry(ctx, name, src, timeout=900):
+    """ctx.coq_eval, run again when coqc was killed from outside (SIGTERM/SIGKILL by another job's cleanup: 'Terminated')"""
+    for attempt in range(3):
+        rc, out, dt = ctx.coq_eval(name, src, timeout=timeout)
+        if rc == 0 or not (rc in (143, 137, -15, -9) or out.strip() in ("Terminated", "Killed", "")):
+            break
+    return rc, out, dt
+
+
+def correspond_retry(ctx, name, imports, terms, fn):
+    """ctx.correspond with one term per coqc job and the retry above"""
+    from concurrent.futures import ThreadPoolExecutor
+
+    def one(kt):
+        k, t = kt
+        src = imports + "\nDefinition cases := [\n" + t + "\n].\nDefinition M := Eval vm_compute in (%s cases).\nPrint M.\n" % fn
+        return (k,) + coq_eval_retry(ctx, "%s_%s_%d" % (ctx.pid, name, k), src)
+    with ThreadPoolExecutor(max_workers=14) as ex:
+        res = list(ex.map(one, list(enumerate(terms))))
+    bad = []
+    for k, rc, out, dt in res:
+        if rc != 0:
+            return None, "coqc failed on generated cases (%s): %s" % (name, out[-1500:])
+        idx = vlib.parse_nat_list(out)
+        if idx is None:
+            return None, "cannot parse coqc output: " + out[-500:]
+        bad += [k + i for i in idx]
+    ctx.cov["model_evaluations"] = ctx.cov.get("model_evaluations", 0) + len(terms)
+    return sorted(bad), None
+
+
+def trace_events(path):
+    """one trace per pool (byte slices: R/G, annotations: RA/GA) -> [(pool name, events)], addresses renumbered
+    in order of first appearance (the validator only compares addresses; 0 = nil stays 0)"""
     ev = {"slices": [], "annotations": []}
+    num = {"0": "0"}
     for l in open(path):
         p = l.split()
-        if len(p) == 4 and p[0] in ("R", "G"):
-            ev["slices"].append("P%s %s %s" % (p[0], p[1], p[2]))
-        elif len(p) == 4 and p[0] in ("RA", "GA"):
-            ev["annotations"].append("P%s %s %s" % (p[0][0], p[1], p[2]))
-    return [(k, "[" + "; ".join(v[:limit]) + "]%N", v[:limit]) for k, v in ev.items() if v]
+        if len(p) != 4:
+            continue
+        if p[0] in ("R", "G"):
+            k, pool = p[0], "slices"
+        elif p[0] in ("RA", "GA"):
+            k, pool = p[0][0], "annotations"
+        else:
+            continue
+        for x in (p[1], p[2]):
+            if x not in num:
+                num[x] = str(len(num))
+        ev[pool].append("P%s %s %s" % (k, num[p[1]], num[p[2]]))       # "PR h d" / "PG h d"
+    return [(k, v) for k, v in ev.items() if v]
+
+
+def validate_traces(ctx, broken, tinfo):
+    """WHOLE traces through C05.Model.pool_check by vm_compute. tinfo = [(name, c, b, g, pool, events)].
+    Jobs of about 20000 events; a trace is cut in chunk definitions of 4000 events (long list literals overflow coqc's stack)."""
+    from concurrent.futures import ThreadPoolExecutor
+    jobs, cur, w = [], [], 0
+    for i in sorted(range(len(tinfo)), key=lambda i: -len(tinfo[i][5])):
+        cur.append(i)
+        w += len(tinfo[i][5])
+        if w >= 20000:
+            jobs.append(cur)
+            cur, w = [], 0
+    if cur:
+        jobs.append(cur)
+
+    def one(job):
+        j, idxs = job
+        src = ["From Coq Require Import NArith List Uint63. Import ListNotations.\nFrom OBI.C05 Require Import Model Codec.\nLocal Open Scope uint63_scope."]
+        terms = []
+        for i in idxs:
+            ev = tinfo[i][5]
+            names = []
+            for k in range(0, len(ev), 4000):
+                names.append("t%d_%d" % (i, k // 4000))
+                ints = ";".join("%d;%s;%s" % (0 if e[1] == "R" else 1, e.split()[1], e.split()[2]) for e in ev[k:k + 4000])
+                src.append("Definition %s : list int := [%s]." % (names[-1], ints))
+            terms.append("[" + "; ".join(names) + "]")
+        src.append("Definition M := Eval vm_compute in (trace_mismatches [%s]).\nPrint M.\n" % "; ".join(terms))
+        rc, out, dt = coq_eval_retry(ctx, "C05_pooltraces_%d" % j, "\n".join(src), timeout=2400)
+        if rc != 0:
+            return None, out[-1500:]
+        idx = vlib.parse_nat_list(out)
+        if idx is None:
+            return None, "cannot parse coqc output: " + out[-500:]
+        return [idxs[k] for k in idx], None
+    bad = []
+    with ThreadPoolExecutor(max_workers=14) as ex:
+        for r, err in ex.map(one, list(enumerate(jobs))):
+            if r is None:
+                return None, err
+            bad += r
+    ctx.cov["model_evaluations"] = ctx.cov.get("model_evaluations", 0) + len(tinfo)
+    return sorted(bad), None
 
 
 def py_pool_check(ev):
@@ -148,6 +243,441 @@ def py_pool_check(ev):
     return None
 
 
+
+# ---------------------------------------------------------------------------------------------
+# record-level correspondence: the REAL command's output records = flat_map (cmd_f c) of the input
+# records (C05/Records.v), obicount = the monoid fold
+IUPAC = "acgtnrykmswbdhv"
+
+
+def gen_corr(ctx, path, n):
+    """FASTQ file of n records with varied annotations; returns the abstract input records
+    (id, sequence as the reader normalises it, qualities, annotation dict) from the generator's own data."""
+    rng = ctx.rng
+    recs = []
+    edge = [1, 2, 59, 60, 61, 99, 100, 101, 120]
+    with open(path, "w") as f:
+        for i in range(n):
+            L = rng.choice(edge) if rng.random() < 0.3 else rng.randrange(1, 130)
+            alpha = "acgt" if rng.random() < 0.7 else IUPAC + ".-"
+            sq = "".join(rng.choice(alpha) for _ in range(L))
+            if rng.random() < 0.1:
+                sq = sq.upper()
+            if rng.random() < 0.05 and L > 6:
+                k = rng.randrange(1, L - 4)
+                sq = sq[:k] + "[" + sq[k + 1:k + 3] + "]" + sq[k + 4:]
+            q = "".join(chr(33 + rng.randrange(0, 42)) for _ in range(L))
+            if q[0] in "@+":
+                q = "I" + q[1:]       # a quality line starting with '@' is the entry-splitting question of C01, not ours
+            ann = {}
+            if rng.random() < 0.7:
+                ann["count"] = rng.choice([1, 1, 2, 3, 3, 4, 7, 100, 0, -2])
+            for k in rng.sample(["sample", "w", "x", "f", "m", "b", "neg", "big", "e", "sp", "seq_length", "zz"], rng.randrange(0, 5)):
+                ann[k] = {"sample": "s%d" % (i % 4), "w": rseq(rng, 3), "x": [1, rng.randrange(9)], "f": rng.randrange(1, 99) + 0.5, "m": {"a": i, "b": "q"},
+                          "b": rng.random() < 0.5, "neg": -rng.randrange(1, 1000), "big": 10 ** 11 + i, "e": "", "sp": "a b  c\\d \"q\"",
+                          "seq_length": rng.randrange(0, 300), "zz": [[], {}]}[k]
+            definition = rng.choice(["", "", "some definition %d" % i, "x"])
+            title = "r%05d" % i
+            if ann or rng.random() < 0.5:
+                title += " " + json.dumps(ann, separators=(",", ":")) if ann else ""
+            if definition:
+                title += " " + definition
+                ann = dict(ann, definition=definition)
+            f.write("@%s\n%s\n+\n%s\n" % (title, sq, q))
+            recs.append(("r%05d" % i, sq.lower(), q, ann))
+    return recs
+
+
+def parse_fastq_out(data):
+    """records written by a command (FASTQ, JSON header): [(id, seq, qual, annotation dict)] or None"""
+    lines = data.decode("utf8", "replace").split("\n")
+    if lines and lines[-1] == "":
+        lines.pop()
+    if len(lines) % 4:
+        return None
+    out = []
+    for k in range(0, len(lines), 4):
+        t, sq, plus, q = lines[k:k + 4]
+        if not t.startswith("@") or plus != "+":
+            return None
+        ident, _, rest = t[1:].partition(" ")
+        rest = rest.strip()
+        try:
+            ann = json.loads(rest) if rest else {}
+        except ValueError:
+            return None
+        if not isinstance(ann, dict):
+            return None
+        out.append((ident, sq, q, ann))
+    return out
+
+
+def parse_csv_out(data, keys):
+    """rows of obicsv --ids --count -s -k ...: [[id, count, value of each key, sequence]] with integers as int; None when unparsable"""
+    import csv, io
+    rows = list(csv.reader(io.StringIO(data.decode("utf8", "replace"))))
+    if not rows or rows[0] != ["id", "count"] + list(keys) + ["sequence"]:
+        return None
+    out = []
+    for row in rows[1:]:
+        if len(row) != len(keys) + 3:
+            return None
+        out.append([row[0]] + [int(x) if re.fullmatch(r"-?\d+", x) else x for x in row[1:-1]] + [row[-1]])
+    return out
+
+
+def coq_bytes(s):
+    """bytes packed 7 per primitive integer, least significant first (decoded by C05.Codec.pk inside vm_compute)"""
+    b = s.encode("utf8")
+    return "(pk %d [%s])" % (len(b), ";".join(str(int.from_bytes(b[k:k + 7], "little")) for k in range(0, len(b), 7)))
+
+
+def coq_val(v):
+    if isinstance(v, bool) or not isinstance(v, (int, str)):
+        return "VRaw (%s)" % coq_bytes(json.dumps(v, sort_keys=True, separators=(",", ":")))
+    if isinstance(v, int):
+        return "VInt (%d)%%Z" % v
+    return "VStr (%s)" % coq_bytes(v)
+
+
+def coq_rec(r):
+    ident, sq, q, ann = r
+    return "mkrec (%s) (%s) (%s) [%s]" % (coq_bytes(ident), coq_bytes(sq), "None" if q is None else "Some (%s)" % coq_bytes(q),
+                                          "; ".join("(%s, %s)" % (coq_bytes(k), coq_val(v)) for k, v in sorted(ann.items())))
+
+
+def coq_recs(rs):
+    return "[" + ";\n ".join(coq_rec(r) for r in rs) + "]"
+
+
+UNSET = 2000000000
+COMPL = dict(zip("acgtnrykmswbdhv.-[]", "tgcanyrmkswvhdb.-]["))
+
+
+def py_cmd_f(c, r):
+    """python twin of Records.cmd_f (direct oracle)"""
+    ident, sq, q, ann = r
+    kind = c[0]
+    if kind == "convert":
+        return [r]
+    if kind == "complement":
+        return [(ident, "".join(COMPL.get(x, "n") for x in reversed(sq)), q[::-1], ann)]
+    if kind == "annotlen":
+        return [(ident, sq, q, dict(ann, seq_length=len(sq)))]
+    inv, lmin, lmax, cmin, cmax = c[1:]
+    cnt = ann.get("count", 1)
+    ok = (lmin <= 1 or len(sq) >= lmin) and (lmax == UNSET or len(sq) <= lmax) and (cmin <= 1 or cnt >= cmin) and (cmax == UNSET or cnt <= cmax)
+    return [r] if ok != inv else []
+
+
+def coq_cmd(c):
+    if c[0] == "convert":
+        return "CConvert"
+    if c[0] == "complement":
+        return "CComplement"
+    if c[0] == "annotlen":
+        return "CAnnotLength"
+    return "(CGrep %s (%d)%%Z (%d)%%Z (%d)%%Z (%d)%%Z)" % ("true" if c[1] else "false", c[2], c[3], c[4], c[5])
+
+
+def corr_command_lines(rng):
+    a, b = sorted(rng.sample([2, 59, 60, 61, 99, 100, 101, 120, 150], 2))
+    return [
+        ("obiconvert", ("convert",), []),
+        ("obicomplement", ("complement",), []),
+        ("obiannotate", ("annotlen",), ["--length"]),
+        ("obigrep", ("grep", False, a, b, 1, UNSET), ["-l", str(a), "-L", str(b)]),
+        ("obigrep", ("grep", False, b, UNSET, 1, UNSET), ["-l", str(b)]),
+        ("obigrep", ("grep", True, 1, a, 1, UNSET), ["-v", "-L", str(a)]),
+        ("obigrep", ("grep", False, 1, UNSET, 3, UNSET), ["-c", "3"]),
+        ("obigrep", ("grep", False, a, UNSET, 1, 3), ["-l", str(a), "-C", "3"]),
+        ("obicount", ("count",), []),
+        ("obisummary", ("summary-count",), ["--json-output"]),
+        # (not "big": obicsv prints a number of more than 6 digits read from a JSON title line in exponent notation, 1.00000000001e+11 —
+        #  a formatting matter of the CSV writer, the same in every configuration, outside C05)
+        ("obicsv", ("csv", ("sample", "w", "neg")), ["--ids", "--count", "-s", "-k", "sample", "-k", "w", "-k", "neg"]),
+    ]
+
+
+def prep_records(ctx, d):
+    """everything random of the record-level correspondence (ctx.rng is not used from the worker threads)"""
+    n = 400 if ctx.quick else 4000
+    path = os.path.join(d, "corr.fastq")
+    inp = gen_corr(ctx, path, n)
+    return dict(n=n, path=path, inp=inp, lines=corr_command_lines(ctx.rng))
+
+
+def records_correspondence(ctx, broken, bindir, d, prep):
+    n, path, inp = prep["n"], prep["path"], prep["inp"]
+    configs = [(1, 2000, 1), (8, 7, 16)] if ctx.quick else [(1, 2000, 1), (8, 7, 16), (3, 1, 4), (32, 100, 16)]
+    terms, info, runs = [], [], 0
+    for (exe, c, opts) in prep["lines"]:
+        seen = set()
+        for (mc, bs, g) in configs:
+            code, out, errb = run_cmd(bindir, [exe] + opts + [path], mc, bs, g)
+            runs += 1
+            if code == 0 and out in seen:
+                continue            # byte-identical to an output already checked against the model
+            seen.add(out)
+            name = "c05_records_%s" % "_".join([exe] + [o.strip("-") for o in opts])
+            rp = dict(property="C05", kind="record-function", argv=[exe] + opts, max_cpu=mc, batch_size=bs, gomaxprocs=g, seed=ctx.seed,
+                      how_to_replay="corr.fastq is regenerated from the seed by tools/props/c05.py gen_corr")
+            if code != 0:
+                ctx.violation(name + "_exit", dict(rp, exit=code, stderr=errb.decode("utf8", "replace")[-1500:]))
+                continue
+            if c[0] == "count":
+                m = re.match(rb"entites,n\nvariants,(-?\d+)\nreads,(-?\d+)\nsymbols,(-?\d+)\n$", out)
+                exp = (len(inp), sum(r[3].get("count", 1) for r in inp), sum(len(r[1]) for r in inp))
+                got = tuple(int(x) for x in m.groups()) if m else None
+                if got != exp:
+                    ctx.violation(name, dict(rp, expected=exp, implementation=out.decode("utf8", "replace")[:300]))
+                if got:
+                    terms.append("Count (%d)%%Z (%d)%%Z (%d)%%Z" % got)
+                    info.append((name, rp))
+                continue
+            if c[0] == "summary-count":
+                # the "count" section of obisummary is the same fold as obicount
+                exp = (len(inp), sum(r[3].get("count", 1) for r in inp), sum(len(r[1]) for r in inp))
+                try:
+                    cs = json.loads(out)["count"]
+                    got = (cs["variants"], cs["reads"], cs["total_length"])
+                except (ValueError, KeyError, TypeError):
+                    got = None
+                if got != exp:
+                    ctx.violation(name, dict(rp, expected=exp, implementation=out.decode("utf8", "replace")[:600]))
+                if got:
+                    terms.append("Count (%d)%%Z (%d)%%Z (%d)%%Z" % got)
+                    info.append((name, rp))
+                continue
+            if c[0] == "csv":
+                keys = c[1]
+                got = parse_csv_out(out, keys)
+                exp = [[r[0], r[3].get("count", 1)] + [r[3].get(k, "NA") for k in keys] + [r[1]] for r in inp]
+                if got != exp:
+                    k = next((i for i, (x, y) in enumerate(zip(got or [], exp)) if x != y), min(len(got or []), len(exp)))
+                    ctx.violation(name, dict(rp, first_differing_row=k, expected=exp[k:k + 1], implementation=(got or [])[k:k + 1],
+                                             rows_expected=len(exp), rows_written=len(got) if got is not None else "unparsable output"))
+                if got is not None:
+                    terms.append("Csv [%s] [%s]" % ("; ".join(coq_bytes(k) for k in keys),
+                                                    ";\n ".join("[" + "; ".join(coq_val(v) for v in row) + "]" for row in got)))
+                    info.append((name, rp))
+                continue
+            got = parse_fastq_out(out)
+            exp = [y for r in inp for y in py_cmd_f(c, r)]
+            if got != exp:
+                k = next((i for i, (x, y) in enumerate(zip(got or [], exp)) if x != y), min(len(got or []), len(exp)))
+                ctx.violation(name, dict(rp, first_differing_record=k, expected=exp[k:k + 1], implementation=(got or [])[k:k + 1],
+                                         records_expected=len(exp), records_written=len(got) if got is not None else "unparsable output"))
+            if got is not None:
+                terms.append("Map %s %s" % (coq_cmd(c), coq_recs(got)))
+                info.append((name, rp))
+    imports = ("From Coq Require Import NArith ZArith List Uint63.\nImport ListNotations.\nFrom OBI.C05 Require Import Records Codec.\n"
+               "Local Open Scope uint63_scope.\nDefinition inp : list rec :=\n%s.\n" % coq_recs(inp))
+    bad, err = correspond_retry(ctx, "records", imports, terms, "cmd_mismatches inp")
+    if bad is None:
+        broken.append(dict(kind="correspondence", detail=err))
+    else:
+        for i in bad:
+            name, rp = info[i]
+            if not os.path.exists(ctx.replay_path(name)):
+                broken.append(dict(kind="correspondence", name="corr:C05/records/%s" % name, first_diverging_case=rp))
+    ctx.cov["record_function_cases"] = len(terms)
+    ctx.cov["record_function_records"] = n
+    return runs
+
+
+# ---------------------------------------------------------------------------------------------
+# in-process schedule exploration (harness vh c05): the real library pipeline, many configurations per second
+REF_CONFIG = dict(batch=10 ** 6, readers=1, workers=1, writers=1, gomaxprocs=1, seed=0, repeat=1, stage2=0, **{"yield": 0})
+
+
+def rand_configs(rng, n, nrec, repeat):
+    out = [dict(REF_CONFIG)]
+    for _ in range(n):
+        out.append({"batch": rng.choice([1, 1, 2, 3, 7, 50, max(1, nrec // 2), nrec]), "readers": rng.choice([1, 2, 4]),
+                    "workers": rng.choice([1, 2, 3, 4, 8, 16, 32]), "writers": rng.choice([1, 1, 2, 4]), "gomaxprocs": rng.choice([1, 2, 4, 16]),
+                    "yield": rng.choice([0, 100, 400, 900]), "seed": rng.randrange(1 << 40), "repeat": repeat, "stage2": rng.choice([0, 0, 3])})
+    return out
+
+
+def fastq_head(path, nrec):
+    with open(path) as f:
+        return "".join(itertools.islice(f, 4 * nrec))
+
+
+def prep_inproc(ctx, d, prep):
+    rng = ctx.rng
+    ncfg, repeat = (40, 2) if ctx.quick else (1200, 3)
+    nin = min(len(prep["inp"]), 800)          # the in-process runs are many: a head of the correspondence input is enough
+    inp = prep["inp"][:nin]
+    text = fastq_head(prep["path"], nin)
+    cases = []
+    for (exe, c, opts) in prep["lines"]:
+        if c[0] in ("csv", "summary-count"):
+            continue
+        if c[0] == "grep" and len([x for x in cases if x[0]["cmd"] == "grep"]) >= (2 if ctx.quick else 5):
+            continue
+        case = dict(cmd={"convert": "convert", "complement": "complement", "annotlen": "annotlen", "grep": "grep", "count": "count"}[c[0]],
+                    input=text, inv=False, lmin=1, lmax=UNSET, cmin=1, cmax=UNSET, keep=2, configs=rand_configs(rng, ncfg, len(inp), repeat))
+        if c[0] == "grep":
+            case.update(inv=c[1], lmin=c[2], lmax=c[3], cmin=c[4], cmax=c[5])
+        cases.append((case, c))
+    npairs = 250 if ctx.quick else 2500
+    cases.append((dict(cmd="pairing", input=fastq_head(os.path.join(d, "F.fastq"), npairs), mates=fastq_head(os.path.join(d, "R.fastq"), npairs),
+                       lmin=10, keep=2, configs=rand_configs(rng, ncfg, npairs, repeat)), ("pairing",)))
+    return dict(cases=cases, inp=inp)
+
+
+def inproc_judge(ctx, case, c, o, inp):
+    """verdict on one observation of vh c05"""
+    import base64
+    name = "c05_inproc_%s" % case["cmd"]
+    rp = dict(property="C05", kind="in-process-pipeline", seed=ctx.seed, case=case,
+              how_to_replay="python3 tools/check.py C05 --replay <this file> (runs the case through vh c05 again)")
+    if o.get("kind") != "ok":
+        ctx.violation(name + "_" + str(o.get("kind")), dict(rp, implementation={k: v for k, v in o.items() if k != "outs"}))
+        return
+    outs = o["outs"]
+    if any(x["poison"] for x in outs):
+        ctx.violation(name + "_poison", dict(rp, note="poison byte 0xDB of a recycled buffer reached the output",
+                                             config=[x["first_config"] for x in outs if x["poison"]][0]))
+        return
+    if len(outs) != 1:
+        a = base64.b64decode(outs[0].get("bytes", "")).split(b"\n")
+        b = base64.b64decode(outs[1].get("bytes", "")).split(b"\n")
+        k = next((i for i, (x, y) in enumerate(zip(a, b)) if x != y), min(len(a), len(b)))
+        ctx.violation(name + "_diff", dict(rp, kind="output-depends-on-configuration", distinct_outputs=len(outs),
+                                           runs_per_output=[x["runs"] for x in outs], config_a=outs[0]["first_config"], config_b=outs[1]["first_config"],
+                                           first_diff_line=k, line_a=a[k].decode("utf8", "replace")[:400] if k < len(a) else None,
+                                           line_b=b[k].decode("utf8", "replace")[:400] if k < len(b) else None))
+        return
+    data = base64.b64decode(outs[0]["bytes"])
+    if c[0] == "pairing":
+        return
+    if c[0] == "count":
+        exp = "entites,n\nvariants,%d\nreads,%d\nsymbols,%d\n" % (len(inp), sum(r[3].get("count", 1) for r in inp), sum(len(r[1]) for r in inp))
+        if data.decode() != exp:
+            ctx.violation(name + "_records", dict(rp, expected=exp, implementation=data.decode("utf8", "replace")[:300]))
+        return
+    got = parse_fastq_out(data)
+    exp = [y for r in inp for y in py_cmd_f(c, r)]
+    if got != exp:
+        k = next((i for i, (x, y) in enumerate(zip(got or [], exp)) if x != y), min(len(got or []), len(exp)))
+        ctx.violation(name + "_records", dict(rp, first_differing_record=k, expected=exp[k:k + 1], implementation=(got or [])[k:k + 1],
+                                              records_expected=len(exp), records_written=len(got) if got is not None else "unparsable output"))
+
+
+def inprocess_exploration(ctx, broken, d, prep2):
+    from concurrent.futures import ThreadPoolExecutor
+    cases, inp = prep2["cases"], prep2["inp"]
+
+    def one(cc):
+        case, c = cc
+        return ctx.vh_robust("c05", [case], timeout=240 if ctx.quick else 3000)[0]
+    with ThreadPoolExecutor(max_workers=3) as ex:
+        obs = list(ex.map(one, cases))
+    runs, yields = 0, 0
+    for (case, c), o in zip(cases, obs):
+        if o.get("kind") == "crash":
+            ctx.violation("c05_inproc_%s_crash" % case["cmd"], dict(property="C05", kind="in-process-pipeline-crashed", seed=ctx.seed, case=case, implementation=o))
+            continue
+        runs += o.get("runs", 0)
+        yields += o.get("yields", 0)
+        inproc_judge(ctx, case, c, o, inp)
+    ctx.cov["inprocess_pipeline_runs"] = runs
+    ctx.cov["inprocess_yields_injected"] = yields
+    ctx.cov["inprocess_cases"] = [dict(cmd=case["cmd"], configs=len(case["configs"])) for case, _ in cases]
+    return runs
+
+
+# ---------------------------------------------------------------------------------------------
+# race-detector reports: which ones decide C05
+RACE_RECORD_CODE = re.compile(r"/pkg/(obiseq|obialign|obiapat|obikmer|obingslibrary)/[^/]+\.go$")
+RACE_BENIGN = [
+    ("pipe-counter", re.compile(r"obiiter\.(RegisterAPipe|UnregisterPipe|WaitForLastPipe)\b")),          # globalLockerCounter
+    ("lazy-score-tables", re.compile(r"obialign\._Init(DNAScoreMatrix|NucPartMatch|NucScorePartMatch)\b")),  # flag published after the tables
+]
+
+
+def race_accesses(report):
+    """the two conflicting access stacks of a Go race report: [[(function, file, line), ...], [...]]"""
+    stacks, cur = [], None
+    lines = report.split("\n")
+    for i, l in enumerate(lines):
+        if re.match(r"\s*(Read|Write|Previous read|Previous write|Atomic read|Atomic write|Previous atomic \w+) at ", l):
+            cur = []
+            stacks.append(cur)
+            continue
+        if re.match(r"\s*Goroutine \d+ .*created at:", l) or not l.strip():
+            cur = None
+            continue
+        m = re.match(r"\s+(/\S+\.go):(\d+)", l)
+        if m and cur is not None and i > 0:
+            cur.append((lines[i - 1].strip(), m.group(1), int(m.group(2))))
+    return stacks[:2]
+
+
+def race_classify(report):
+    """-> (class, description). 'decisive' = both accesses have their first frame inside the obitools tree in the code that
+    holds record bytes (sequence / quality / annotation buffers, alignment arenas, k-mer indexes) and no frame of a recorded
+    benign pattern; everything else is informative."""
+    st = race_accesses(report)
+    if len(st) < 2:
+        return "unparsed", []
+    desc, in_record_code = [], []
+    for frames in st:
+        mine = [f for f in frames if "/pkg/" in f[1] and "/go/pkg/mod/" not in f[1] and "/usr/" not in f[1]]
+        top = mine[0] if mine else (frames[0] if frames else ("?", "?", 0))
+        desc.append("%s %s:%d" % (top[0].split("/")[-1], top[1].split("/pkg/")[-1], top[2]))
+        in_record_code.append(bool(mine) and bool(RACE_RECORD_CODE.search(top[1])))
+    for name, pat in RACE_BENIGN:
+        if any(pat.search(f[0]) for frames in st for f in frames):
+            return "benign:" + name, desc
+    if all(in_record_code):
+        return "decisive", desc
+    return "informative", desc
+
+
+# ---------------------------------------------------------------------------------------------
+# first use of the JSON machinery by several goroutines at once (harness vh c05json): one trial = one process
+JSON_TRIALS = {
+    "obi": "merged_sample={'a': 3, 'b': 4}; obiclean_status={'a': 's', 'b': 'h'}; extra={'x': 1, 'y': 'z'}; count=7; some text",
+    "json": '{"count":3,"merged_sample":{"a":3,"b":2},"st":{"a":"s"},"l":[1,2,"x"],"f":1.5,"b":true} def',
+    "format": "merged_sample={'a': 3, 'b': 4}; obiclean_status={'a': 's', 'b': 'h'}; extra={'x': 1, 'y': 'z'}; count=7; some text",
+}
+
+
+def json_trial(vh_bin, case):
+    try:
+        p = subprocess.run([vh_bin, "c05json"], input=(json.dumps(case) + "\n").encode(), capture_output=True, timeout=60)
+    except subprocess.TimeoutExpired:
+        return "hang", {}
+    if p.returncode != 0:
+        return "crash", dict(stderr=p.stderr.decode("utf8", "replace")[-1500:])
+    o = json.loads(p.stdout)
+    return ("panic" if o["panics"] else ("diff" if o["distinct_results"] != 1 else "ok")), o
+
+
+def json_first_use(ctx, n, kinds=("obi", "json", "format"), goroutines=16):
+    """n fresh processes per kind; in each, 16 goroutines make their first call of the real header parser / formatter together"""
+    from concurrent.futures import ThreadPoolExecutor
+    total = 0
+    for kind in kinds:
+        case = dict(kind=kind, header=JSON_TRIALS[kind], goroutines=goroutines)
+        with ThreadPoolExecutor(max_workers=4) as ex:
+            res = list(ex.map(lambda i: json_trial(ctx.vh_bin, case), range(n)))
+        total += n
+        bad = [(i, r) for i, r in enumerate(res) if r[0] != "ok"]
+        if bad:
+            ctx.violation("c05_json_first_use_%s" % kind, dict(property="C05", kind="json-first-use", case=case, trials=n, failures=len(bad),
+                          first_failing_trial=bad[0][0], outcome=bad[0][1][0], implementation=bad[0][1][1],
+                          note="several goroutines made their FIRST call of the title-line parser / formatter at the same time in a fresh process and one of them "
+                               "panicked (or results differ): the third-party JSON library compiles a decoder/encoder per type at first use in an unsynchronised table; "
+                               "in a command such a panic kills the run, i.e. the outcome depends on the schedule",
+                          how_to_replay="python3 tools/check.py C05 --replay <this file> repeats the trials (each one a fresh process) until one fails"))
+    return total
+
+
 def run(ctx, broken):
     d = os.path.join(vlib.BUILD, "c05_data_%d" % os.getpid())
     shutil.rmtree(d, ignore_errors=True)
@@ -158,11 +688,25 @@ def run(ctx, broken):
         shutil.rmtree(d, ignore_errors=True)
 
 
+def progress(msg):
+    try:
+        with open(os.path.join(vlib.BUILD, "c05_progress.log"), "a") as f:
+            import time
+            f.write("%s %s\n" % (time.strftime("%H:%M:%S"), msg))
+    except OSError:
+        pass
+
+
 def _run(ctx, broken, d):
+    import time
+    T = {}
+    t0 = time.time()
+    progress("start tier=%s seed=%s" % (ctx.tier, ctx.seed))
     bindir, err = ctx.build_cmds(CMDS)
     if bindir is None:
         broken.append(dict(kind="command-build", detail=err))
         return
+    T['build_cmds'] = round(time.time() - t0, 1)
     # inputs larger than the 1 MiB read buffer: the reader then delivers several chunks (= several worker batches)
     nrec = 5000 if ctx.quick else 20000
     pf, pr = gen_data(ctx, d, nrec)
@@ -175,56 +719,84 @@ def _run(ctx, broken, d):
     else:
         grid = [(c, b, g) for c in (1, 2, 3, 8, 32) for b in (1, 2, 7, 100, nrec) for g in (1, 4, 16)]
         reps = 4
+    T['gen_data'] = round(time.time() - t0, 1)
     lines = command_lines(d, pf, pr)
     runs, nontrivial, dist, traces = 0, set(), {}, []
-    for name, argv in lines:
-        ref = None
+    from concurrent.futures import ThreadPoolExecutor
+    pool = ThreadPoolExecutor(max_workers=5)
+    # in-process exploration and the record-level correspondence run beside the process grid
+    prep = prep_records(ctx, d)
+    prep2 = prep_inproc(ctx, d, prep)
+    fut_rec = pool.submit(records_correspondence, ctx, broken, bindir, d, prep)
+
+    # pool traces (both pools) of EVERY command line: one configuration in the quick tier, three in the thorough one
+    traced_cfg = [grid[4]] if ctx.quick else [grid[1], grid[7], grid[40]]
+
+    def grid_line(la):
+        name, argv = la
+        ref, n, nt, trs = None, 0, set(), []
         for (c, b, g) in grid:
             for rep in range(reps):
                 tr = None
-                if rep == 0 and (c, b, g) in grid[1:4] and name in ("obiconvert", "obipairing", "obicomplement", "obimultiplex", "obiannotate", "obipcr"):
+                if rep == 0 and (c, b, g) in traced_cfg and (not ctx.quick or name in QUICK_TRACED):
                     tr = os.path.join(d, "trace_%s_%d_%d_%d.txt" % (name, c, b, g))
                 code, out, errb = run_cmd(bindir, argv, c, b, g, trace=tr)
-                runs += 1
+                n += 1
                 key = (code, hashlib.sha256(out).hexdigest())
-                dist[name] = dist.get(name, 0) + 1
                 if len(out) > 200:
-                    nontrivial.add((name, c, b, g))
+                    nt.add((name, c, b, g))
                 if tr and os.path.exists(tr):
-                    traces.append((name, c, b, g, tr))
+                    trs.append((name, c, b, g, tr))
                 if code != 0:
                     ctx.violation("c05_%s_exit" % name, dict(property="C05", kind="command-failed", argv=argv, max_cpu=c, batch_size=b, gomaxprocs=g,
                                                              exit=code, stderr=errb.decode("utf8", "replace")[-1500:], seed=ctx.seed))
-                    break
+                    return n, nt, trs
                 if b"\xdb" in out:
                     ctx.violation("c05_%s_poison" % name, dict(property="C05", kind="recycled-buffer-in-output", argv=argv, max_cpu=c, batch_size=b,
                                                                gomaxprocs=g, seed=ctx.seed, note="poison byte 0xDB of a recycled buffer reached the output"))
-                    break
+                    return n, nt, trs
                 if ref is None:
                     ref = (key, (c, b, g), out)
                 elif key != ref[0]:
                     # first differing line
-                    la, lb = ref[2].split(b"\n"), out.split(b"\n")
-                    k = next((i for i, (x, y) in enumerate(zip(la, lb)) if x != y), min(len(la), len(lb)))
+                    la_, lb = ref[2].split(b"\n"), out.split(b"\n")
+                    k = next((i for i, (x, y) in enumerate(zip(la_, lb)) if x != y), min(len(la_), len(lb)))
                     ctx.violation("c05_%s_diff" % name, dict(property="C05", kind="output-depends-on-configuration", argv=argv,
                                   config_a=dict(max_cpu=ref[1][0], batch_size=ref[1][1], gomaxprocs=ref[1][2]),
                                   config_b=dict(max_cpu=c, batch_size=b, gomaxprocs=g), seed=ctx.seed, first_diff_line=k,
-                                  line_a=la[k:k + 1][0].decode("utf8", "replace")[:400] if k < len(la) else None,
+                                  line_a=la_[k:k + 1][0].decode("utf8", "replace")[:400] if k < len(la_) else None,
                                   line_b=lb[k:k + 1][0].decode("utf8", "replace")[:400] if k < len(lb) else None,
                                   how_to_replay="data set regenerated from seed by tools/props/c05.py gen_data; run both configurations and compare"))
-                    break
-            else:
-                continue
-            break
-    # trace validation through the Coq model
-    terms, nev, tinfo = [], 0, []
+                    return n, nt, trs
+        return n, nt, trs
+
+    # the command lines run 4 at a time (each one walks its grid sequentially and stops at its first violation)
+    futs = [(la[0], pool.submit(grid_line, la)) for la in lines]
+    fut_inproc = pool.submit(inprocess_exploration, ctx, broken, d, prep2)
+    fut_json = pool.submit(json_first_use, ctx, 120 if ctx.quick else 8000)
+    for name, fu in futs:
+        n, nt, trs = fu.result()
+        progress("grid line %s done (%d runs)" % (name, n))
+        runs += n
+        dist[name] = n
+        nontrivial |= nt
+        traces += trs
+    runs += fut_rec.result()
+    progress("records correspondence done")
+    inproc_runs = fut_inproc.result()
+    progress("in-process exploration done")
+    ctx.cov["json_first_use_trials"] = fut_json.result()
+    progress("json trials done")
+    pool.shutdown()
+    T['grid+records+inproc'] = round(time.time() - t0, 1)
+    # trace validation through the Coq model: WHOLE traces of both pools, every command line
+    nev, tinfo = 0, []
     for (name, c, b, g, tr) in traces:
-        for (pool, t, ev) in trace_terms(tr):
-            terms.append(t)
+        for (pool, ev) in trace_events(tr):
             tinfo.append((name, c, b, g, pool, ev))
             nev += len(ev)
-    if terms:
-        bad, err = ctx.correspond("pooltraces", "From Coq Require Import NArith List. Import ListNotations.\nFrom OBI.C05 Require Import Model.", terms, shard=4)
+    if tinfo:
+        bad, err = validate_traces(ctx, broken, tinfo)
         if bad is None:
             broken.append(dict(kind="correspondence", detail=err))
         else:
@@ -235,35 +807,44 @@ def _run(ctx, broken, d):
                 ctx.violation("c05_pooltrace_%s_%s" % (name, pool), dict(property="C05", kind="pool-trace-rejected-by-model", command=name, pool=pool,
                               max_cpu=c, batch_size=b, gomaxprocs=g, rejected_event_index=k, verdict=where[1] if where else "rejected by the Coq validator",
                               events_up_to_rejection=ev[max(0, k - 30):k + 1],
-                              note="the ownership validator (C05.Model.pool_check, evaluated by vm_compute) rejects this real get/recycle trace: "
-                                   "a buffer was recycled twice, a live buffer was handed out, or a header sitting in the pool was modified by its former owner"))
+                              note="the ownership validator (C05.Model.pool_check, evaluated by vm_compute) rejects this real get/recycle trace "
+                                   "(addresses renumbered by first appearance): a buffer was recycled twice, a live buffer was handed out, or a header "
+                                   "sitting in the pool was modified by its former owner"))
+    terms = tinfo
+    progress("traces done (%d events)" % nev)
+    T["traces"] = round(time.time() - t0, 1)
+    ctx.cov["phase_end_s"] = T
     ctx.cov["traces_validated_against_impl"] = len(terms)
     ctx.cov["trace_events"] = nev
-    # thorough: race-detector builds on a reduced grid
+    # thorough: race-detector builds on a reduced grid; a report is DECISIVE (a violation) only when both
+    # conflicting accesses are in code that holds the bytes of records (see race_classify)
     if not ctx.quick:
         race_dir, err = ctx.build_cmds(CMDS, race=True)
         if race_dir is None:
             broken.append(dict(kind="command-build-race", detail=err))
         else:
-            relevant = 0
+            counts = {}
             for name, argv in lines:
                 for (c, b, g) in [(8, 7, 16), (4, 1, 4)]:
-                    code, out, errb = run_cmd(race_dir, argv, c, b, g, timeout=600)
+                    code, out, errb = run_cmd(race_dir, argv, c, b, g, timeout=900)
                     runs += 1
                     for rep_ in re.split(r"={18}\n", errb.decode("utf8", "replace")):
                         if "DATA RACE" not in rep_:
                             continue
-                        if "globalLockerCounter" in rep_ or "obiiter.(*" in rep_.split("Previous")[0][:400] and "Lock" in rep_:
-                            continue
-                        if re.search(r"pkg/obiseq/(pool|biosequence|attributes|revcomp|subseq)\.go|pkg/obialign/|pkg/obiapat/|pkg/obingslibrary/", rep_):
-                            relevant += 1
-                            if relevant <= 3:
-                                # informative only: a race report is not by itself a dependence of the OUTPUT on the schedule
-                                # (the unchanged tree has benign ones, e.g. the lazy initialisation of the score tables);
-                                # what decides C05 is bytes, poison, crashes and the pool traces
-                                ctx.cov.setdefault("race_report_samples", []).append(dict(command=name, max_cpu=c, batch_size=b, report=rep_[:1500]))
-            ctx.cov["race_reports_on_record_state"] = relevant
-    ctx.cov["evaluations"] = runs
+                        cls, why = race_classify(rep_)
+                        counts[cls] = counts.get(cls, 0) + 1
+                        if cls == "decisive":
+                            ctx.violation("c05_race_%s" % name, dict(property="C05", kind="data-race-on-record-bytes", argv=argv, max_cpu=c, batch_size=b,
+                                          gomaxprocs=g, seed=ctx.seed, accesses=why, report=rep_[:6000],
+                                          note="race detector build: two goroutines access the same memory without synchronisation and BOTH accesses are in the "
+                                               "code that holds record bytes (pkg/obiseq, obialign, obiapat, obikmer, obingslibrary); the unchanged tree has no such report "
+                                               "(its reports are the pipe counter of obiiter, the lazily initialised score tables of obialign, the iterator variable of Rebatch)"))
+                        elif len(ctx.cov.setdefault("race_report_samples", [])) < 4 and cls not in [x["class"] for x in ctx.cov["race_report_samples"]]:
+                            ctx.cov["race_report_samples"].append({"class": cls, "command": name, "accesses": why})
+            ctx.cov["race_reports_by_class"] = counts
+            progress("race runs done %s" % counts)
+    ctx.cov["evaluations"] = runs + inproc_runs
+    ctx.cov["process_runs"] = runs
     ctx.cov["distinct_nontrivial"] = len(nontrivial)
     ctx.cov["rule"] = "one execution = (command line, max-cpu, batch-size, GOMAXPROCS, repetition) on a data set generated from the seed; non-trivial = output > 200 bytes; distinct = distinct (command line, configuration)"
     ctx.cov["distribution"] = dist
@@ -272,5 +853,26 @@ def _run(ctx, broken, d):
 
 
 def replay(ctx, rp):
+    if rp.get("kind") == "json-first-use":
+        n = max(3 * rp.get("trials", 1000), 6000)
+        fails = 0
+        for i in range(n):
+            k, o = json_trial(ctx.vh_bin, rp["case"])
+            if k != "ok":
+                fails += 1
+                print("replay: trial %d: %s %s" % (i, k, json.dumps(o)[:1200]))
+                ctx.violation("replayed", dict(rp, replayed=True, trial=i, outcome=k, implementation=o))
+                break
+        print("replay of the first-use trials (%s): %d failure in %d fresh processes" % (rp["case"]["kind"], fails, i + 1))
+        return
+    if rp.get("kind") in ("in-process-pipeline", "in-process-pipeline-crashed") or (rp.get("case") or {}).get("configs"):
+        o = ctx.vh_robust("c05", [rp["case"]], timeout=600)[0]
+        print("replay of the in-process case (%s, %d configurations): kind=%s runs=%s distinct outputs=%s" % (
+            rp["case"]["cmd"], len(rp["case"]["configs"]), o.get("kind"), o.get("runs"), len(o.get("outs", []))))
+        for x in o.get("outs", [])[:4]:
+            print("  output %s: %d runs, first with %s%s" % (x["sha"], x["runs"], x["first_config"], " POISON" if x["poison"] else ""))
+        if o.get("kind") != "ok" or len(o.get("outs", [])) != 1:
+            ctx.violation("replayed", dict(rp, replayed=True))
+        return
     print("replay: regenerate the data set with VERIF_SEED=%s and run the two configurations of %s" % (rp.get("seed"), rp.get("argv")))
     run(ctx, [])
